@@ -232,6 +232,13 @@ def byte_level(base, rng, nflips):
             if base.partial:
                 continue      # the file already ends inside a record
             out.append(("trailing:%02x+%d#" % (mid, len(tail)), wal + bytes([mid]) + tail, must, mustnot))
+    if not base.partial:
+        # garbage that happens to look like a CHECKPOINT/COMMITCOMPLETE record of a transaction group this file does not hold
+        # (transaction-info records carry no checksum): the intact committed groups before it must still be applied
+        import struct as _st
+        must = {t for t in range(1, ntg_complete + 1) if not base.checkpointed(t)}
+        for fid in (2 ** 63 - 1, 1 << 40):
+            out.append(("trailing:forged-checkpoint-of-unknown-group-%d#" % fid, wal + b"\x01" + _st.pack("<q", fid) + b"\x01\x02", must, set()))
     allbits = [(o, b) for o in range(n) for b in range(8)]
     if nflips and nflips < len(allbits):
         # always: every bit of the bytes that steer the scanner (message ids, destination and status of transaction-info
